@@ -68,6 +68,8 @@ impl Hasher for TH {
 }
 
 struct ScriptStub {
+    /// which RpcError an "err" entry of the script produces: "deadline" | "shutdown" | "server"
+    errkind: String,
     script: Vec<String>,
     n: AtomicU32,
     first: Mutex<Option<usize>>,
@@ -89,11 +91,15 @@ impl Stub for ScriptStub {
             }
         };
         let r = self.script.get((n - 1) as usize).cloned().unwrap_or_else(|| "ok".to_string());
-        emit("Attempt", json!({"n": n, "req": *req, "same": same, "res": r}));
+        emit("Attempt", json!({"n": n, "req": *req, "same": same, "res": r, "errkind": self.errkind}));
         if r == "ok" {
             Ok(n as u64)
         } else {
-            Err(RpcError::DeadlineExceeded)
+            Err(match self.errkind.as_str() {
+                "shutdown" => RpcError::Shutdown,
+                "server" => RpcError::Server(tarpc::ServerError::new(std::io::ErrorKind::Other, "scripted".to_string())),
+                _ => RpcError::DeadlineExceeded,
+            })
         }
     }
 }
@@ -174,7 +180,8 @@ fn run_one(s: &Sched) {
             let policy: Vec<(bool, bool)> = cfg["policy"].as_array().map(|a| {
                 a.iter().map(|p| (p[0].as_bool().unwrap_or(false), p[1].as_bool().unwrap_or(false))).collect()
             }).unwrap_or_default();
-            let stub = ScriptStub { script, n: AtomicU32::new(0), first: Mutex::new(None) };
+            let errkind = cfg["errkind"].as_str().unwrap_or("deadline").to_string();
+            let stub = ScriptStub { errkind, script, n: AtomicU32::new(0), first: Mutex::new(None) };
             let pol = policy.clone();
             let retry = Retry::new(stub, move |res: &Result<u64, RpcError>, attempt: u32| {
                 let (on_ok, on_err) = pol.get((attempt as usize).wrapping_sub(1)).cloned().unwrap_or((false, false));
@@ -212,7 +219,8 @@ pub fn run(a: &Args) -> Value {
                 let script: Vec<&str> = (0..len).map(|_| if rng.gen_bool(0.5) { "ok" } else { "err" }).collect();
                 let mut policy: Vec<Value> = (0..len).map(|_| json!([rng.gen_bool(0.4), rng.gen_bool(0.7)])).collect();
                 policy[len - 1] = json!([false, false]);
-                json!({"kind": "retry", "n": 1, "script": script, "policy": policy})
+                let errkind = ["deadline", "shutdown", "server"][rng.gen_range(0..3)];
+                json!({"kind": "retry", "n": 1, "script": script, "policy": policy, "errkind": errkind})
             }
         };
         scheds.push(Sched { id: format!("r{}", i), cfg, steps: vec![], expect: None });
